@@ -13,6 +13,8 @@
 # limitations under the License.
 
 
+import jax.tree_util as jtu
+
 from genjax._src.core.compiler.interpreters.incremental import Diff, incremental
 from genjax._src.core.generative import (
     Argdiffs,
@@ -40,6 +42,16 @@ from genjax._src.core.typing import (
 ArgTuple = TypeVar("ArgTuple", bound=tuple[Any, ...])
 R = TypeVar("R")
 S = TypeVar("S")
+
+
+def _tag_constant_leaves(diffs):
+    # Outputs of a mapping which do not flow through the incremental interpreter
+    # (e.g. Python literals) are constants: tag them `NoChange`.
+    return jtu.tree_map(
+        lambda v: v if isinstance(v, Diff) else Diff.no_change(v),
+        diffs,
+        is_leaf=lambda v: isinstance(v, Diff),
+    )
 
 
 @Pytree.dataclass
@@ -157,10 +169,12 @@ class Dimap(Generic[ArgTuple, R, S], GenerativeFunction[S]):
         primals = Diff.tree_primal(argdiffs)
         tangents = Diff.tree_tangent(argdiffs)
 
-        inner_argdiffs = incremental(self.argument_mapping)(
-            None,
-            primals,
-            tangents,
+        inner_argdiffs = _tag_constant_leaves(
+            incremental(self.argument_mapping)(
+                None,
+                primals,
+                tangents,
+            )
         )
         inner_trace: Trace[R] = trace.inner
 
@@ -178,10 +192,12 @@ class Dimap(Generic[ArgTuple, R, S], GenerativeFunction[S]):
             xformed_args = self.argument_mapping(*args)
             return self.retval_mapping(args, xformed_args, retval)
 
-        retval_diff = incremental(closed_mapping)(
-            None,
-            (primals, inner_retval_primals),
-            (tangents, inner_retval_tangents),
+        retval_diff = _tag_constant_leaves(
+            incremental(closed_mapping)(
+                None,
+                (primals, inner_retval_primals),
+                (tangents, inner_retval_tangents),
+            )
         )
 
         retval_primal: S = Diff.tree_primal(retval_diff)
